@@ -1386,3 +1386,6 @@ TP("t-parseint-digit-table", ALL_PROPS, "selftest/patches/t-parseint-digit-table
 M("c07-location-from-advanced-ip", ["C07"], VM,
   "            for ip in range(frame.ip - 1, -1, -1):\n", "            for ip in range(frame.ip, -1, -1):\n",
   [("C07", "C07-R13", "walk-from")], note="location lookup from the already advanced instruction pointer")
+M("c08-converted-lists-unlinked", ["C08"], CX,
+  "                arr = JSArray()\n                arr._prototype = self._array_prototype\n", "                arr = JSArray()\n",
+  [("C08", "C08-R23", "_to_js")], note="fix 1cb9be0 reverted for converted lists")
